@@ -709,6 +709,31 @@ def c09(longs, pairs, w3, U):
     return out
 
 # ---------------------------------------------------------------------------------- C16
+RESIDUE_M2 = F(2, 10 ** 13)        # ~ 900 ulps of M^2
+RESIDUE_MEAN = F(2, 10 ** 13)
+def _welford_residue_explains(cf, i, n, name, x, exact):
+    """Is the f64 error of Vst / Vsct at operation i no larger than what the known WelfordOnline residue explains?  The residue class is
+    identified quantitatively: the running m2 carries an absolute error of at most 2e-13 x M^2 and the running mean one of at most
+    2e-13 x M (M = largest magnitude delivered so far; observed: ~1e2 ulps after 1e4 updates), which x/std and (x-mean)/std amplify by
+    1/(2 m2) resp. 1/std on a nearly flat window.  Anything larger than that is NOT this finding and is reported as a violation."""
+    vals = [o[2] for o in cf.ops[:i + 1] if o[0] in ("u", "q", "v")]
+    if len(vals) < 2:
+        return False
+    M = max(abs(v) for v in vals)
+    w = vals[-n:]
+    mean = sum(w) / len(w)
+    m2 = sum((v - mean) ** 2 for v in w)
+    if m2 == 0 or M == 0:
+        return False
+    rel_std = RESIDUE_M2 * M * M / (2 * m2)
+    if rel_std > F(1, 2):
+        rel_std = F(1, 2)          # beyond first order the class is the flat-window finding, judged by the flat rule
+    allowed = abs(exact) * rel_std
+    if name == "Vsct":
+        std = math.sqrt(float(m2) / max(len(w) - 1, 1))
+        allowed += RESIDUE_MEAN * M / F(std)
+    return abs(x - exact) <= allowed
+
 VALUE_LIKE = {"Sma", "Cumulative", "Alma", "Welford", "WelfordMean", "Vst", "Ema", "Min", "Max", "WRolling", "WRollingMean", "Cyber"}
 C16_WIDTH = {"Rsi": F(100), "Cog": None}
 def c16(groups, tol=None, prefix="c16"):
@@ -730,6 +755,7 @@ def c16(groups, tol=None, prefix="c16"):
             scale_ = mag          # value-like when the window is flat; otherwise x/std, judged relative to its own size below
         t = tol if tol is not None else (F(1, 10 ** 6) if kind == "long" or kind == "f32" else F(1, 10 ** 4))
         worst = None
+        residue = None
         pos = [i for i, o in enumerate(cf.ops) if o[0] in ("u", "l", "v")]
         if kind == "flat":
             pos = pos[-1:]
@@ -753,8 +779,17 @@ def c16(groups, tol=None, prefix="c16"):
             if name in ("Vst", "Vsct") and kind != "flat":
                 sc = max(F(1), abs(be.val))
             err = abs(x - be.val) / sc
+            if err > t and name in ("Vst", "Vsct") and kind == "long" and 2 <= n <= 128 and _welford_residue_explains(cf, i, n, name, x, be.val):
+                # the known WelfordOnline residue (known_findings: *-welford-residue-*): judged and reported separately, never mixed with other errors
+                if residue is None or err > residue[0]:
+                    residue = (err, i, x, be.val)
+                continue
             if worst is None or err > worst[0]:
                 worst = (err, i, x, be.val)
+        if residue is not None:
+            out.append(viol(prefix.split("-")[0] + "-welford-residue-%s-f64" % name.lower(),
+                            "%s: floating-point output %.12g vs exact %.12g at operation %d: off by %.3g x scale (tolerance %.0e); the error is within what an absolute residue of 2e-13 x M^2 in m2 (2e-13 x M in the mean) explains on this nearly flat window"
+                            % (d_sexpr(cf.desc), float(residue[2]), float(residue[3]), residue[1] + 1, float(residue[0]), float(t)), [], desc=d_sexpr(cf.desc)))
         if worst is not None and worst[0] > t:
             out.append(viol(prefix + "-%s-%s%s" % ("flat" if kind == "flat" else "drift", name.lower(), "-f32" if kind == "f32" else ""),
                             "%s: floating-point output %.12g vs exact %.12g at operation %d: off by %.3g x scale (tolerance %.0e)%s"
